@@ -10,7 +10,7 @@ Open Scope Z_scope.
 (** state digest of the manager after an operation *)
 Inductive mdigest :=
 | MS (active hretired hprobe : Z) (qseqs : list Z) (probing : list (Z * Z)) (since ppc : Z)
-     (atok : option Z) (acid : cid) (hsdone closed : bool).
+     (atok : option Z) (acid : cid) (hsdone closed : bool) (advlimit : Z).
 
 (** observation of one manager operation: class code, returned ID, returned flag,
     callbacks in call order, digest *)
@@ -43,7 +43,7 @@ Definition new_events {A} (old new : list A) : list A :=
 Definition mdigest_of (st : mgr) : mdigest :=
   MS (m_active st) (m_hretired st) (m_hprobe st) (map n_seq (m_queue st))
      (map (fun pe : Z * ncid => (fst pe, n_seq (snd pe))) (m_probing st))
-     (m_since st) (m_ppc st) (m_atok st) (m_acid st) (m_hsdone st) (m_closed st).
+     (m_since st) (m_ppc st) (m_atok st) (m_acid st) (m_hsdone st) (m_closed st) (m_advlimit st).
 
 Fixpoint mgr_trace (ops : list mop) (st : mgr) : list mobs :=
   match ops with
@@ -129,8 +129,8 @@ Definition zc_eqb (a b : Z * cid) : bool := (fst a =? fst b) && cid_eqb (snd a) 
 
 Definition mdigest_eqb (a b : mdigest) : bool :=
   match a, b with
-  | MS a1 a2 a3 q1 p1 s1 c1 t1 i1 h1 cl1, MS b1 b2 b3 q2 p2 s2 c2 t2 i2 h2 cl2 =>
-    (a1 =? b1) && (a2 =? b2) && (a3 =? b3) && list_eqb Z.eqb q1 q2 && perm_eqb zz_eqb p1 p2 &&
+  | MS a1 a2 a3 q1 p1 s1 c1 t1 i1 h1 cl1 l1, MS b1 b2 b3 q2 p2 s2 c2 t2 i2 h2 cl2 l2 =>
+    (l1 =? l2) && (a1 =? b1) && (a2 =? b2) && (a3 =? b3) && list_eqb Z.eqb q1 q2 && perm_eqb zz_eqb p1 p2 &&
     (s1 =? s2) && (c1 =? c2) && opt_eqb Z.eqb t1 t2 && cid_eqb i1 i2 && Bool.eqb h1 h2 && Bool.eqb cl1 cl2
   end.
 
